@@ -119,12 +119,23 @@ def grep_forbidden():
     return hits
 
 
+# property theorems that live outside Props/<prop>.lean because they IMPORT it (layering results obtained from the
+# property's theorems through a refinement): (module, namespace, file under lean/)
+EXTRA_PROPS = {
+    "C02": [("DefconModel.Link.DirtyNotifyProps", "DefconModel.Link", os.path.join("DefconModel", "Link", "DirtyNotifyProps.lean"))],
+}
+
+
 def props_theorems(prop):
-    """names of the theorems stated in Props/<prop>.lean (namespace DefconModel.Props.<prop>)"""
-    path = os.path.join(LEAN_DIR, "DefconModel", "Props", prop + ".lean")
-    src = strip_comments(open(path).read())
-    names = re.findall(r"^\s*theorem\s+([A-Za-z_][A-Za-z0-9_'.]*)", src, re.M)
-    examples = len(re.findall(r"^\s*example\b", src, re.M))
+    """names of the theorems stated in Props/<prop>.lean (namespace DefconModel.Props.<prop>) and in the extra
+    property modules registered for it"""
+    paths = [os.path.join(LEAN_DIR, "DefconModel", "Props", prop + ".lean")]
+    paths += [os.path.join(LEAN_DIR, x[2]) for x in EXTRA_PROPS.get(prop, [])]
+    names, examples = [], 0
+    for path in paths:
+        src = strip_comments(open(path).read())
+        names += re.findall(r"^\s*theorem\s+([A-Za-z_][A-Za-z0-9_'.]*)", src, re.M)
+        examples += len(re.findall(r"^\s*example\b", src, re.M))
     return names, examples
 
 
@@ -134,7 +145,12 @@ def audit_axioms(prop, names):
     os.makedirs(d, exist_ok=True)
     path = os.path.join(d, "Audit_%s_%d.lean" % (prop, os.getpid()))
     with open(path, "w") as f:
-        f.write("import DefconModel.Props.%s\nopen DefconModel.Props.%s\n" % (prop, prop))
+        f.write("import DefconModel.Props.%s\n" % prop)
+        for mod, ns, _ in EXTRA_PROPS.get(prop, []):
+            f.write("import %s\n" % mod)
+        f.write("open DefconModel.Props.%s\n" % prop)
+        for mod, ns, _ in EXTRA_PROPS.get(prop, []):
+            f.write("open %s\n" % ns)
         for n in names:
             f.write("#print axioms %s\n" % n)
     try:
@@ -423,7 +439,7 @@ def check(prop, mod, tier, seed, t0):
                                    detail=out[-3000:]))
             else:
                 raise Broken("lake build of the models failed:\n" + out[-3000:])
-        rc, out = lake(["build", "DefconModel.Props." + prop])
+        rc, out = lake(["build", "DefconModel.Props." + prop] + [x[0] for x in EXTRA_PROPS.get(prop, [])])
         props_ok = rc == 0
         if rc != 0:
             if gen_changed or any(b["kind"] == "extractor" for b in broken):
@@ -450,7 +466,8 @@ def check(prop, mod, tier, seed, t0):
     checker_cmd = "cd lean && lake build DefconModel.Props.%s && lake env lean <#print axioms of %d theorems>" % (prop, len(names))
     if tier == "thorough" and props_ok:
         with lean_lock():
-            rc, out = lake(["env", "leanchecker", "DefconModel.Props." + prop], timeout=3000)
+            rc, out = lake(["env", "leanchecker", "DefconModel.Props." + prop] + [x[0] for x in EXTRA_PROPS.get(prop, [])],
+                           timeout=3000)
         if rc != 0:
             raise Broken("leanchecker rejected DefconModel.Props.%s:\n%s" % (prop, out[-2000:]))
         checker_cmd += " && lake env leanchecker DefconModel.Props." + prop
